@@ -10,14 +10,14 @@ use petgraph::{Direction, EdgeType};
 use std::marker::PhantomData;
 
 #[derive(Clone, Debug)]
-pub struct SymGraph<W = (), Ty = petgraph::Directed> {
+pub struct SymGraph<W = (), Ty = petgraph::Directed, N = ()> {
     pub ids: Vec<usize>,
     pub directed: bool,
     pub bound: usize,
     pub prefix: String,
     /// weight per position pair (row-major n*n); for undirected use (min,max)
     pub weights: Vec<W>,
-    pub unit: (),
+    pub nw: Vec<N>,
     pub ty: PhantomData<Ty>,
 }
 
@@ -35,7 +35,7 @@ impl<Ty: EdgeType> SymGraph<(), Ty> {
             directed,
             prefix: prefix.to_string(),
             weights: vec![(); n * n],
-            unit: (),
+            nw: vec![(); n],
             ty: PhantomData,
         };
         for i in 0..n {
@@ -53,7 +53,7 @@ impl<Ty: EdgeType> SymGraph<(), Ty> {
     }
 }
 
-impl<W, Ty> SymGraph<W, Ty> {
+impl<W, Ty, N> SymGraph<W, Ty, N> {
     pub fn n(&self) -> usize {
         self.ids.len()
     }
@@ -83,9 +83,16 @@ impl<W, Ty> SymGraph<W, Ty> {
     pub fn matrix(&self) -> Vec<Vec<String>> {
         (0..self.n()).map(|i| (0..self.n()).map(|j| self.var(i, j)).collect()).collect()
     }
-    pub fn with_weights<W2>(&self, weights: Vec<W2>) -> SymGraph<W2, Ty> {
+    pub fn with_weights<W2>(&self, weights: Vec<W2>) -> SymGraph<W2, Ty, N>
+    where
+        N: Clone,
+    {
         assert_eq!(weights.len(), self.n() * self.n());
-        SymGraph { ids: self.ids.clone(), directed: self.directed, bound: self.bound, prefix: self.prefix.clone(), weights, unit: (), ty: PhantomData }
+        SymGraph { ids: self.ids.clone(), directed: self.directed, bound: self.bound, prefix: self.prefix.clone(), weights, nw: self.nw.clone(), ty: PhantomData }
+    }
+    pub fn with_node_weights<N2>(self, nw: Vec<N2>) -> SymGraph<W, Ty, N2> {
+        assert_eq!(nw.len(), self.n());
+        SymGraph { ids: self.ids, directed: self.directed, bound: self.bound, prefix: self.prefix, weights: self.weights, nw, ty: PhantomData }
     }
     fn wref(&self, i: usize, j: usize) -> &W {
         let (i, j) = if !self.directed && j < i { (j, i) } else { (i, j) };
@@ -124,23 +131,23 @@ impl<'a, W> EdgeRef for SEdge<'a, W> {
     }
 }
 
-impl<W, Ty: EdgeType> GraphBase for SymGraph<W, Ty> {
+impl<W, Ty: EdgeType, N> GraphBase for SymGraph<W, Ty, N> {
     type NodeId = usize;
     type EdgeId = (usize, usize);
 }
-impl<W, Ty: EdgeType> Data for SymGraph<W, Ty> {
-    type NodeWeight = ();
+impl<W, Ty: EdgeType, N> Data for SymGraph<W, Ty, N> {
+    type NodeWeight = N;
     type EdgeWeight = W;
 }
-impl<W, Ty: EdgeType> GraphProp for SymGraph<W, Ty> {
+impl<W, Ty: EdgeType, N> GraphProp for SymGraph<W, Ty, N> {
     type EdgeType = Ty;
 }
-impl<W, Ty: EdgeType> NodeCount for SymGraph<W, Ty> {
+impl<W, Ty: EdgeType, N> NodeCount for SymGraph<W, Ty, N> {
     fn node_count(&self) -> usize {
         self.n()
     }
 }
-impl<W, Ty: EdgeType> NodeIndexable for SymGraph<W, Ty> {
+impl<W, Ty: EdgeType, N> NodeIndexable for SymGraph<W, Ty, N> {
     fn node_bound(&self) -> usize {
         self.bound
     }
@@ -151,8 +158,8 @@ impl<W, Ty: EdgeType> NodeIndexable for SymGraph<W, Ty> {
         i
     }
 }
-impl<W, Ty: EdgeType> NodeCompactIndexable for SymGraph<W, Ty> {}
-impl<W, Ty: EdgeType> EdgeIndexable for SymGraph<W, Ty> {
+impl<W, Ty: EdgeType, N> NodeCompactIndexable for SymGraph<W, Ty, N> {}
+impl<W, Ty: EdgeType, N> EdgeIndexable for SymGraph<W, Ty, N> {
     fn edge_bound(&self) -> usize {
         self.n() * self.n()
     }
@@ -163,7 +170,7 @@ impl<W, Ty: EdgeType> EdgeIndexable for SymGraph<W, Ty> {
         (self.ids[i / self.n()], self.ids[i % self.n()])
     }
 }
-impl<W, Ty: EdgeType> EdgeCount for SymGraph<W, Ty> {
+impl<W, Ty: EdgeType, N> EdgeCount for SymGraph<W, Ty, N> {
     fn edge_count(&self) -> usize {
         let mut c = 0;
         for i in 0..self.n() {
@@ -179,7 +186,7 @@ impl<W, Ty: EdgeType> EdgeCount for SymGraph<W, Ty> {
         c
     }
 }
-impl<W, Ty: EdgeType> Visitable for SymGraph<W, Ty> {
+impl<W, Ty: EdgeType, N> Visitable for SymGraph<W, Ty, N> {
     type Map = FixedBitSet;
     fn visit_map(&self) -> FixedBitSet {
         FixedBitSet::with_capacity(self.bound)
@@ -189,7 +196,7 @@ impl<W, Ty: EdgeType> Visitable for SymGraph<W, Ty> {
         map.grow(self.bound);
     }
 }
-impl<W, Ty: EdgeType> GetAdjacencyMatrix for SymGraph<W, Ty> {
+impl<W, Ty: EdgeType, N> GetAdjacencyMatrix for SymGraph<W, Ty, N> {
     type AdjMatrix = ();
     fn adjacency_matrix(&self) {}
     fn is_adjacent(&self, _m: &(), a: usize, b: usize) -> bool {
@@ -199,13 +206,9 @@ impl<W, Ty: EdgeType> GetAdjacencyMatrix for SymGraph<W, Ty> {
         }
     }
 }
-impl<W, Ty: EdgeType> DataMap for SymGraph<W, Ty> {
-    fn node_weight(&self, id: usize) -> Option<&()> {
-        if self.ids.contains(&id) {
-            Some(&self.unit)
-        } else {
-            None
-        }
+impl<W, Ty: EdgeType, N> DataMap for SymGraph<W, Ty, N> {
+    fn node_weight(&self, id: usize) -> Option<&N> {
+        self.ids.iter().position(|&x| x == id).map(|i| &self.nw[i])
     }
     fn edge_weight(&self, id: (usize, usize)) -> Option<&W> {
         let (i, j) = (self.ids.iter().position(|&x| x == id.0)?, self.ids.iter().position(|&x| x == id.1)?);
@@ -218,13 +221,13 @@ impl<W, Ty: EdgeType> DataMap for SymGraph<W, Ty> {
 }
 
 // ---- iterators (lazy) -------------------------------------------------------------------------
-pub struct SNeighbors<'a, W, Ty> {
-    g: &'a SymGraph<W, Ty>,
+pub struct SNeighbors<'a, W, Ty, N = ()> {
+    g: &'a SymGraph<W, Ty, N>,
     i: usize,
     j: usize,
     dir: Direction,
 }
-impl<'a, W, Ty> Iterator for SNeighbors<'a, W, Ty> {
+impl<'a, W, Ty, N> Iterator for SNeighbors<'a, W, Ty, N> {
     type Item = usize;
     fn next(&mut self) -> Option<usize> {
         while self.j < self.g.n() {
@@ -241,13 +244,13 @@ impl<'a, W, Ty> Iterator for SNeighbors<'a, W, Ty> {
         None
     }
 }
-pub struct SEdges<'a, W, Ty> {
-    g: &'a SymGraph<W, Ty>,
+pub struct SEdges<'a, W, Ty, N = ()> {
+    g: &'a SymGraph<W, Ty, N>,
     i: usize,
     j: usize,
     dir: Direction,
 }
-impl<'a, W, Ty> Iterator for SEdges<'a, W, Ty> {
+impl<'a, W, Ty, N> Iterator for SEdges<'a, W, Ty, N> {
     type Item = SEdge<'a, W>;
     fn next(&mut self) -> Option<SEdge<'a, W>> {
         while self.j < self.g.n() {
@@ -280,11 +283,11 @@ impl<'a, W, Ty> Iterator for SEdges<'a, W, Ty> {
         None
     }
 }
-pub struct SAllEdges<'a, W, Ty> {
-    g: &'a SymGraph<W, Ty>,
+pub struct SAllEdges<'a, W, Ty, N = ()> {
+    g: &'a SymGraph<W, Ty, N>,
     k: usize,
 }
-impl<'a, W, Ty> Iterator for SAllEdges<'a, W, Ty> {
+impl<'a, W, Ty, N> Iterator for SAllEdges<'a, W, Ty, N> {
     type Item = SEdge<'a, W>;
     fn next(&mut self) -> Option<SEdge<'a, W>> {
         let n = self.g.n();
@@ -303,50 +306,47 @@ impl<'a, W, Ty> Iterator for SAllEdges<'a, W, Ty> {
     }
 }
 
-impl<'a, W, Ty: EdgeType> IntoNeighbors for &'a SymGraph<W, Ty> {
-    type Neighbors = SNeighbors<'a, W, Ty>;
-    fn neighbors(self, a: usize) -> SNeighbors<'a, W, Ty> {
+impl<'a, W, Ty: EdgeType, N> IntoNeighbors for &'a SymGraph<W, Ty, N> {
+    type Neighbors = SNeighbors<'a, W, Ty, N>;
+    fn neighbors(self, a: usize) -> SNeighbors<'a, W, Ty, N> {
         { let (i, j) = self.start(a); SNeighbors { g: self, i, j, dir: Direction::Outgoing } }
     }
 }
-impl<'a, W, Ty: EdgeType> IntoNeighborsDirected for &'a SymGraph<W, Ty> {
-    type NeighborsDirected = SNeighbors<'a, W, Ty>;
-    fn neighbors_directed(self, a: usize, d: Direction) -> SNeighbors<'a, W, Ty> {
+impl<'a, W, Ty: EdgeType, N> IntoNeighborsDirected for &'a SymGraph<W, Ty, N> {
+    type NeighborsDirected = SNeighbors<'a, W, Ty, N>;
+    fn neighbors_directed(self, a: usize, d: Direction) -> SNeighbors<'a, W, Ty, N> {
         { let (i, j) = self.start(a); SNeighbors { g: self, i, j, dir: d } }
     }
 }
-impl<'a, W, Ty: EdgeType> IntoEdgeReferences for &'a SymGraph<W, Ty> {
+impl<'a, W, Ty: EdgeType, N> IntoEdgeReferences for &'a SymGraph<W, Ty, N> {
     type EdgeRef = SEdge<'a, W>;
-    type EdgeReferences = SAllEdges<'a, W, Ty>;
-    fn edge_references(self) -> SAllEdges<'a, W, Ty> {
+    type EdgeReferences = SAllEdges<'a, W, Ty, N>;
+    fn edge_references(self) -> SAllEdges<'a, W, Ty, N> {
         SAllEdges { g: self, k: 0 }
     }
 }
-impl<'a, W, Ty: EdgeType> IntoEdges for &'a SymGraph<W, Ty> {
-    type Edges = SEdges<'a, W, Ty>;
-    fn edges(self, a: usize) -> SEdges<'a, W, Ty> {
+impl<'a, W, Ty: EdgeType, N> IntoEdges for &'a SymGraph<W, Ty, N> {
+    type Edges = SEdges<'a, W, Ty, N>;
+    fn edges(self, a: usize) -> SEdges<'a, W, Ty, N> {
         { let (i, j) = self.start(a); SEdges { g: self, i, j, dir: Direction::Outgoing } }
     }
 }
-impl<'a, W, Ty: EdgeType> IntoEdgesDirected for &'a SymGraph<W, Ty> {
-    type EdgesDirected = SEdges<'a, W, Ty>;
-    fn edges_directed(self, a: usize, d: Direction) -> SEdges<'a, W, Ty> {
+impl<'a, W, Ty: EdgeType, N> IntoEdgesDirected for &'a SymGraph<W, Ty, N> {
+    type EdgesDirected = SEdges<'a, W, Ty, N>;
+    fn edges_directed(self, a: usize, d: Direction) -> SEdges<'a, W, Ty, N> {
         { let (i, j) = self.start(a); SEdges { g: self, i, j, dir: d } }
     }
 }
-impl<'a, W, Ty: EdgeType> IntoNodeIdentifiers for &'a SymGraph<W, Ty> {
+impl<'a, W, Ty: EdgeType, N> IntoNodeIdentifiers for &'a SymGraph<W, Ty, N> {
     type NodeIdentifiers = std::iter::Cloned<std::slice::Iter<'a, usize>>;
     fn node_identifiers(self) -> Self::NodeIdentifiers {
         self.ids.iter().cloned()
     }
 }
-impl<'a, W, Ty: EdgeType> IntoNodeReferences for &'a SymGraph<W, Ty> {
-    type NodeRef = (usize, &'a ());
-    type NodeReferences = std::iter::Map<std::slice::Iter<'a, usize>, fn(&'a usize) -> (usize, &'a ())>;
+impl<'a, W, Ty: EdgeType, N> IntoNodeReferences for &'a SymGraph<W, Ty, N> {
+    type NodeRef = (usize, &'a N);
+    type NodeReferences = std::iter::Zip<std::iter::Cloned<std::slice::Iter<'a, usize>>, std::slice::Iter<'a, N>>;
     fn node_references(self) -> Self::NodeReferences {
-        fn f<'b>(x: &'b usize) -> (usize, &'b ()) {
-            (*x, &())
-        }
-        self.ids.iter().map(f as fn(&'a usize) -> (usize, &'a ()))
+        self.ids.iter().cloned().zip(self.nw.iter())
     }
 }
